@@ -74,6 +74,8 @@ def check(run: Run, prog: Program, model: Model, tier: str) -> None:
         " The failing guard of a relational error must test the reported value itself (not round()/int() of it). Formatter rules are decided by abstract evaluation of the format() method of each error class on an instance built by its own __init__.")
     run.rule_text = ("obligations = distinct (method, error class / descent site / index site) instances over all explored paths; "
                      "non-trivial = provenance established through inlined helpers, loop variables or aliasing locals")
+    from ..entry import entry_transparent
+    entry_transparent(run, prog, model, "validate", "VALIDATE-ENTRY")
     run.trusted += ["th.PathHolder.__getitem__/__getattr__ append to the holder in place and return it; its __copy__ is shallow "
                     "(shares the accessor list) - read from the installed th 0.4.1 source as documentation",
                     "copy.deepcopy yields an independent PathHolder"]
@@ -437,6 +439,9 @@ V_ = "d42/validation/_validator.py"
 SV = "d42/substitution/_validator.py"
 F_ = "d42/validation/_formatter.py"
 MUTANTS = [
+    {"name": "validate() remembers the last (schema, value) pair (seeded C03-K)", "rule": "VALIDATE-ENTRY",
+     "edits": [("d42/validation/__init__.py", "def validate(schema: GenericSchema, value: Any, **kwargs: Any) -> ValidationResult:\n    return schema.__accept__(_validator, value=value, **kwargs)\n",
+                "_last: Any = None\n\n\ndef validate(schema: GenericSchema, value: Any, **kwargs: Any) -> ValidationResult:\n    global _last\n    if _last is not None and _last[0] is schema and _last[1] is value and not kwargs:\n        return ValidationResult(list(_last[2].get_errors()))\n    result = schema.__accept__(_validator, value=value, **kwargs)\n    _last = (schema, value, result)\n    return result\n")]},
     {"name": "float bounds checked on round(value, precision) but reported for the value", "rule": "FACT-AGREE",
      "edits": [(V_, "        if schema.props.min is not Nil:\n            if value < schema.props.min:\n                result.add_error(MinValueValidationError(path, value, schema.props.min))\n\n        if schema.props.max is not Nil:\n            if value > schema.props.max:\n                result.add_error(MaxValueValidationError(path, value, schema.props.max))\n\n        return result\n\n    def visit_str",
                 "        comparable = value if schema.props.precision is Nil else round(value, schema.props.precision)\n        if schema.props.min is not Nil:\n            if comparable < schema.props.min:\n                result.add_error(MinValueValidationError(path, value, schema.props.min))\n\n        if schema.props.max is not Nil:\n            if comparable > schema.props.max:\n                result.add_error(MaxValueValidationError(path, value, schema.props.max))\n\n        return result\n\n    def visit_str")]},
